@@ -280,12 +280,12 @@ class BasicContiguousElement
                 {
                     return std::move(other.reference_);
                 }
-                return store_and_load(other.reference_, other.memory_.size());
+                return store_and_load(other.reference_, other.reference_.size_in_bytes());
             }
         }
         else
         {
-            return store_and_load(other.reference_, other.memory_.size());
+            return store_and_load(other.reference_, other.reference_.size_in_bytes());
         }
     }
 
